@@ -378,6 +378,9 @@ def h_xsd(ch: Chooser, kind: str):
         if bad and oname.startswith("class_name=") and "Xml Text does not support typing `list[pkgx.main." in str(bad.get("detail")) and mode_of(desc) in ("pair", "triple"):
             # class names in a field-like case: the inner class of an anonymous type gets the very name of a sibling field and replaces it in the class body
             bad["bucket"] = "KF/inner-class-named-like-a-sibling-field-under-non-pascal-class-names"
+        if bad and kind == "xsd-wrapper" and oname == "wrapper" and bad["bucket"].endswith("/duplicate-field-name") and mode_of(desc) in ("pair", "triple"):
+            # the wrapped child, its same-named sibling and a third field whose name collides with both after normalisation
+            bad["bucket"] = "KF/wrapper-field-renaming-hands-out-one-name-twice-among-three-colliding-fields"
         if bad:
             return bad
         return dict(ok=True, case=case, obs="codegen-error" if g.error is not None else "ok", nontrivial=h((kind, desc, oname)),
